@@ -87,6 +87,22 @@ package support
 //@   loop 5
 //@     complete [all_iterations_no_early_exit]
 //@     invariant [at_most_the_announced_number_started] 0 <= c && (cpu >= 0 ==> c <= cpu)
+//@   loop 1
+//@     complete [all_iterations_no_early_exit]
+//@   loop 2
+//@     complete [all_iterations_no_early_exit]
+//@   loop 4
+//@     complete [all_iterations_no_early_exit]
+//@   loop 6
+//@     complete [all_iterations_no_early_exit]
+//@   loop 7
+//@     complete [all_iterations_no_early_exit]
+//@   loop 8
+//@     complete [all_iterations_no_early_exit]
+//@   loop 9
+//@     complete [all_iterations_no_early_exit]
+//@   loop 10
+//@     complete [all_iterations_no_early_exit]
 
 //@ define topodepth(e *tree.Edge) int = e.ntaxleft <= e.ntaxright ? e.ntaxleft : e.ntaxright
 
@@ -108,6 +124,8 @@ package support
 //@ func support.ReformatAvgDistance
 //@   flag treeop
 //@   requires t != nil
+//@   loop 1
+//@     complete [all_iterations_no_early_exit]
 
 // MinTransferDist (property C10): the search starts from the largest possible distance p-1 (p = size of the light side
 // of the reference split), walks the whole bootstrap tree from its root, and can only lower it; a terminal reference
@@ -117,15 +135,37 @@ package support
 //@   requires refedge != nil && reftree != nil && boottree != nil
 //@   allocates []uint, [][]*tree.Node, []*tree.Edge, []int, []*tree.Node, iface
 //@   call support.minTransferDistRecur [walk_from_the_bootstrap_root_with_the_maximum_as_initial_minimum] a0 == reftree && a1 == ntips && a2 == boottree.root && a3 == nil && a4 == nil && a5 == refedge && a6 == p && dist == p - 1 && a10 == absent && !stop && a7 == ones && len(ones) == len(bootedges)
+//@   loop 1
+//@     complete [all_iterations_no_early_exit]
+//@   loop 2
+//@     complete [all_iterations_no_early_exit]
 // speciesToMoveRecursive appends the tips to add / remove to the two lists it is given (thin)
 //@ func support.speciesToMoveRecursive
 //@   flag noframe
 //@   requires cur != nil && speciestoadd != nil && speciestoremove != nil
+//@   loop 1
+//@     complete [all_iterations_no_early_exit]
 
 //@ func support.UpdateTaxaMoveArrays
 //@   requires ref != nil && mux != nil
 //@   assigns elems("float64"), cell(nb_branches_close), ghost(lock_Lock), ghost(lock_Unlock)
 //@   ensures [lock_released] ghost(lock_Lock) - ghost(lock_Unlock) == old(ghost(lock_Lock) - ghost(lock_Unlock))
+//@   loop 1
+//@     complete [all_iterations_no_early_exit]
+//@   loop 2
+//@     complete [all_iterations_no_early_exit]
+//@   loop 3
+//@     complete [all_iterations_no_early_exit]
+//@   loop 4
+//@     complete [all_iterations_no_early_exit]
+//@   loop 5
+//@     complete [all_iterations_no_early_exit]
+//@   loop 6
+//@     complete [all_iterations_no_early_exit]
+//@   loop 7
+//@     complete [all_iterations_no_early_exit]
+//@   loop 8
+//@     complete [all_iterations_no_early_exit]
 
 // edge worker of TBE: one reference branch per received message
 //@ func support.TBE$2
